@@ -101,7 +101,8 @@ func opaqueStruct(n *types.Named) bool {
 	}
 	switch p + "." + n.Obj().Name() {
 	case "github.com/cosmos/cosmos-sdk/types.Coin", "github.com/cosmos/cosmos-sdk/types.DecCoin",
-		"github.com/cosmos/cosmos-sdk/x/staking/types.Delegation", "github.com/cosmos/cosmos-sdk/x/staking/types.Validator":
+		"github.com/cosmos/cosmos-sdk/x/staking/types.Delegation", "github.com/cosmos/cosmos-sdk/x/staking/types.Validator",
+		"github.com/SaoNetwork/sao-did/parser.DID":
 		return false
 	}
 	return true
